@@ -1220,6 +1220,15 @@ func (p *Parser) relocateNamedObjects(objIndex uint32) parseResult {
 					return parseResultFailed
 				}
 			}
+			// Refuse to move an object into its own subtree; this would
+			// detach the subtree from the root and turn it into a cycle.
+			for ancestorIndex := targetObj.index; ancestorIndex != InvalidIndex; ancestorIndex = p.objTree.ObjectAt(ancestorIndex).parentIndex {
+				if ancestorIndex == obj.index {
+					kfmt.Fprintf(p.errWriter, "[table: %s, offset: 0x%x] relocation path \"%s\" resolved to a descendant of the object itself\n", p.tableName, obj.amlOffset, namepath[:])
+					return parseResultFailed
+				}
+			}
+
 			p.objTree.detach(p.objTree.ObjectAt(obj.parentIndex), obj)
 			p.objTree.append(targetObj, obj)
 			p.objTree.ObjectAt(obj.firstArgIndex).value = namepath[nameIndex:]
